@@ -141,6 +141,9 @@ def setup(c):
     install.contract('spectrum.correlation', 'CORRELATION', post_CORRELATION)
     install.contract('spectrum.correlation', 'xcorr', post_xcorr)
     install.contract('spectrum.linalg', 'corrmtx', post_corrmtx)
+    reach.cover(c, {'CORRELATION': install.original('spectrum.correlation', 'CORRELATION'),
+                    'xcorr': install.original('spectrum.correlation', 'xcorr'),
+                    'corrmtx': install.original('spectrum.linalg', 'corrmtx')})
 
 
 NORMS = ['biased', 'unbiased', 'coeff', None]
